@@ -53,14 +53,14 @@ PROPS = {
     "C12": {"level": MC, "steps": [_math(59, 60, 2), _wl("c12")]},
     "C13": {"level": MC, "steps": [_hash(1, 6), _wl("c13")]},
     "C14": {"level": MC, "steps": [_iso(9, 16), _gen("Gen_Map"), _gen("Gen_MapSub"), _wl("c14")]},
-    "C15": {"level": MC, "steps": [_iso(9, 16), _gen("Gen_Map"), _gen("Gen_MapDiag"), _wl("c15")]},
+    "C15": {"level": MC, "steps": [_iso(9, 16), _gen("Gen_Map"), _gen("Gen_MapDiag"), _gen("Gen_MapY"), _wl("c15")]},
     "C16": {"level": MC, "steps": [_iso(), _gen("Gen_Iso"), _wl("c16")]},
     "C17": {"level": MC, "steps": [_math(55, 56, 2), _gen("Gen_Enc"), _wl("c17")]},
     "C18": {"level": MC, "steps": [_math(1, 8, 8),
                                    {"kind": "mc", "name": "MC_Sqrt", "workers": 4,
                                     "cfg": {"quick": "MC_Sqrt.cfg", "thorough": "MC_Sqrt_thorough.cfg"}},
                                    _gen("Gen_C18"), _wl("c18")]},
-    "C19": {"level": MC, "steps": [{"kind": "mc", "name": "MC_Stream", "workers": 4}, _wl("c19")]},
+    "C19": {"level": MC, "steps": [{"kind": "mc", "name": "MC_Stream", "workers": 4}, _gen("Gen_Enc"), _wl("c19")]},
     "C20": {"level": "exploration", "steps": [{"kind": "mc", "name": "MC_Concurrent", "workers": 4},
                                               {"kind": "conc", "name": "conc"}]},
 }
